@@ -16,6 +16,7 @@ import (
 	"github.com/klauspost/compress/zstd"
 	"github.com/pierrec/lz4"
 	"github.com/vicanso/pike/cache"
+	"github.com/vicanso/pike/compress"
 	"github.com/vicanso/pike/config"
 	"github.com/vicanso/pike/server"
 )
@@ -215,10 +216,36 @@ func suiteResp(r *rng, n int) {
 			if ae != "" || cr.chance(50) {
 				h["Accept-Encoding"] = []string{ae}
 			}
+			if path == "fetch" {
+				p.store.takeSets()
+			}
 			before := p.calls()
 			w := p.do(method, "r.test", uri, h, nil)
 			calls := p.calls() - before
 			emitRespObs(path, i, ae, w, body, data, calls)
+			if path == "fetch" && enc == "" {
+				// the variants pike compressed itself when it stored the response: made with the best-compression
+				// profile, whatever profile the server uses per request
+				for _, sc := range p.store.takeSets() {
+					hc := cache.NewHTTPCache()
+					if hc.FromBytes(sc.data) != nil || hc.GetStatus() != cache.StatusHit {
+						continue
+					}
+					_, stored := hc.Get()
+					if stored == nil {
+						continue
+					}
+					best := compress.Get(compress.BestCompression)
+					if len(stored.GzipBody) != 0 {
+						ref, _ := best.Gzip(body)
+						emit("resp", "variant", itoa(int64(i)), "gzip", b2s(bytes.Equal(ref, stored.GzipBody)), itoa(int64(len(stored.GzipBody))), itoa(int64(len(ref))))
+					}
+					if len(stored.BrBody) != 0 {
+						ref, _ := best.Brotli(body)
+						emit("resp", "variant", itoa(int64(i)), "br", b2s(bytes.Equal(ref, stored.BrBody)), itoa(int64(len(stored.BrBody))), itoa(int64(len(ref))))
+					}
+				}
+			}
 		}
 	}
 }
